@@ -16,6 +16,7 @@
 import RoModel.DriverCore
 import RoModel.Fault.Ops
 import RoGen.Catalogue
+import RoGen.FaultFacts
 namespace Ro.Driver.Drivers.Fault
 open Ro Ro.Driver Ro.Fault
 
@@ -113,6 +114,14 @@ def run (c : Case) : String :=
     | some fs =>
       let r := runFinalizers fs
       s!"res {c.id} ran={r.1} raised={renderErrs r.2}"
+    | none => s!"res {c.id} bad-faults"
+  else if op.startsWith "Go:RawObserver:" then
+    match parseFaults (c.getD "faults" "-") with
+    | some fs =>
+      let deferred := ((RoGen.FaultFacts.deferredUnlock.find? (·.1 == "subscriberImpl.NextWithContext")).map (·.2.1)).getD false
+      let r := rawObserverRun deferred (op == "Go:RawObserver:safe") (at_ fs "fn") 0 [1, 2] {}
+      let seen := if r.seen.isEmpty then "-" else ",".intercalate (r.seen.map renderNotifBare)
+      s!"res {c.id} crash=0 hang={if r.hang then 1 else 0} how={if r.hang then "-" else "returned"} seen={seen}"
     | none => s!"res {c.id} bad-faults"
   else if op.startsWith "Go:" then
     match parseFaults (c.getD "faults" "-"), goRecovered (op.drop 3).toString with
